@@ -334,6 +334,13 @@ def main(argv):
         skipped = [r[0] for r in res if r[1].startswith("SKIP")]
         selftest = {"caught": caught, "missed": missed, "skipped_pattern_not_found": skipped}
         print("mutation self-test: %d caught, %d missed, %d skipped" % (len(caught), len(missed), len(skipped)))
+        resh = mutate.run("verus", prop=prop, quiet=True, harmless=True)
+        loud = [r[0] for r in resh if r[1] != "QUIET" and not r[1].startswith("SKIP")]
+        selftest["harmless_quiet"] = [r[0] for r in resh if r[1] == "QUIET"]
+        selftest["harmless_not_quiet"] = loud
+        for mname in loud:
+            undecided.append("mutation self-test: behaviour-preserving edit %s is NOT accepted by the current checks" % mname)
+            print("UNDECIDED: property=%s mutation self-test: harmless edit %s is not accepted" % (prop, mname))
         for mname in missed:
             undecided.append("mutation self-test: edit %s is NOT detected by the current checks" % mname)
             print("UNDECIDED: property=%s mutation self-test: edit %s is not detected" % (prop, mname))
